@@ -642,7 +642,7 @@ func c13Long(c *core.Collector, x *Ctx) {
 	}()
 	longWG.Wait()
 	c.Count("bytes_flooded_at_peers_that_do_not_read", floodBytes.Load())
-	c.Floor("calls_in_ten_second_scenarios", 12)
+	c.Floor("calls_in_ten_second_scenarios", 6)
 	t, err := svc.Dial(srv.Addr, false, "99000777")
 	if err == nil {
 		t.Write(t.Frame(0x0002, 1, nil))
